@@ -9,13 +9,22 @@ pub struct ScriptRng {
     pub draws: Vec<(&'static str, usize)>,
     /// bytes requested beyond the script
     pub over: usize,
+    /// (kem, kdf, aead): before handing out bytes, the RNG itself uses the library on the same thread (a full
+    /// key generation + round trip of that suite), the way an RNG layered on HPKE key generation would
+    pub reenter: Option<(u16, u16, u16)>,
+    /// outcomes of those nested uses
+    pub nested: Vec<String>,
 }
 
 impl ScriptRng {
     pub fn new(data: Vec<u8>) -> Self {
-        ScriptRng { data, pos: 0, draws: Vec::new(), over: 0 }
+        ScriptRng { data, pos: 0, draws: Vec::new(), over: 0, reenter: None, nested: Vec::new() }
     }
     fn take(&mut self, out: &mut [u8]) {
+        if let Some((kem, kdf, aead)) = self.reenter {
+            let r = crate::ops::nested_use(kem, kdf, aead, self.nested.len() as u8);
+            self.nested.push(r);
+        }
         for b in out.iter_mut() {
             if self.pos < self.data.len() {
                 *b = self.data[self.pos];
